@@ -22,6 +22,16 @@ Proof.
 Qed.
 
 (* absent, or older than a record: not believed *)
+Lemma not_up_to_date_not_believed_any b w loc s nf f ps :
+  In f nf -> up_to_date b w loc s f = false -> snd (try_cache b w loc s nf ps) = false.
+Proof.
+  intros Hf H. unfold try_cache.
+  assert (X : forallb (up_to_date b w loc s) nf = false).
+  { destruct (forallb (up_to_date b w loc s) nf) eqn:E; [|reflexivity].
+    rewrite forallb_forall in E. rewrite (E f Hf) in H. discriminate. }
+  rewrite X. reflexivity.
+Qed.
+
 Lemma not_up_to_date_not_believed w loc s nf f :
   In f nf -> up_to_date false w loc s f = false -> believed w loc s nf = false.
 Proof.
@@ -32,11 +42,11 @@ Proof.
   rewrite X. reflexivity.
 Qed.
 
-Lemma absent_not_up_to_date w loc s f : pk_get w loc s f = None -> up_to_date false w loc s f = false.
+Lemma absent_not_up_to_date b w loc s f : pk_get w loc s f = None -> up_to_date b w loc s f = false.
 Proof. intro H. unfold up_to_date. rewrite H. reflexivity. Qed.
 
-Lemma older_not_up_to_date w loc s f p :
-  pk_get w loc s f = Some p -> newer_than w s (pk_stamp p) = true -> up_to_date false w loc s f = false.
+Lemma older_not_up_to_date b w loc s f p :
+  pk_get w loc s f = Some p -> newer_than w s (pk_stamp p) = true -> up_to_date b w loc s f = false.
 Proof. intros H1 H2. unfold up_to_date. rewrite H1, H2. apply andb_false_r. Qed.
 
 (* the same for the owner's tag directory: a cache file in a user's directory that is older than a file
@@ -90,11 +100,11 @@ Qed.
 
 (* a database update that does anything leaves the product's directory newer than every cache
    file written before: while the product keeps a version file, no such file is up to date *)
-Lemma act_outdates tick w x l f p :
+Lemma act_outdates tick b w x l f p :
   clock_strict tick -> INV w -> compile (w_db w) x <> [] ->
   pk_get w l (act_stack x) f = Some p ->
   In (act_name x) (db_names (w_db (do_act tick w x)) (act_stack x)) ->
-  up_to_date false (do_act tick w x) l (act_stack x) f = false.
+  up_to_date b (do_act tick w x) l (act_stack x) f = false.
 Proof.
   intros CS I Ne Hp Hn. unfold up_to_date. rewrite (pk_get_pickles w) by apply do_act_pickles. rewrite Hp.
   apply andb_false_iff. right. apply negb_false_iff. unfold newer_than. apply existsb_exists. exists (act_name x). split; [exact Hn|].
